@@ -174,6 +174,9 @@ pub fn translate(spec: &Spec, f_sig: &Signature, body: &Block, sigs: &BTreeMap<S
     // "locals" kernels always yield an option: None = the function returned before the locals existed
     let wrap = spec.locals.is_some();
     for monadic in [false, true] {
+        if spec.force_monadic && !monadic {
+            continue;
+        }
         match translate_mode(spec, f_sig, body, sigs, monadic, wrap, info) {
             Err(TErr::NeedMonad) => continue,
             r => return r,
@@ -418,6 +421,23 @@ fn translate_mode(spec: &Spec, f_sig: &Signature, body: &Block, sigs: &BTreeMap<
             base_stmts.extend(u.block.stmts.iter().cloned());
         }
     }
+    if let Some(fr) = spec.from {
+        let starts = |c: &Ctx, s: &Stmt| -> bool {
+            if c.nk(s).starts_with(fr) {
+                return true;
+            }
+            if let Stmt::Local(l) = s {
+                if let Some(init) = &l.init {
+                    return c.nk(&*init.expr).starts_with(fr);
+                }
+            }
+            false
+        };
+        match base_stmts.iter().position(|s| starts(&c, s)) {
+            Some(i) => base_stmts = base_stmts[i..].to_vec(),
+            None => return unsup(&format!("no top-level statement starting with `{}`", fr), body.span()),
+        }
+    }
     if let Some(u) = spec.until {
         let starts = |c: &Ctx, s: &Stmt| -> bool {
             if c.nk(s).starts_with(u) {
@@ -520,7 +540,11 @@ fn translate_mode(spec: &Spec, f_sig: &Signature, body: &Block, sigs: &BTreeMap<
             let k = if spec.effects.is_empty() { k } else { format!("(list call * {})%type", k) };
             if monadic { format!(" : outcome ({})", k) } else { format!(" : {}", k) }
         }
-        None => String::new(),
+        None => match spec.annot {
+            Some(a) if monadic => format!(" : outcome ({})", a),
+            Some(a) => format!(" : {}", a),
+            None => String::new(),
+        },
     };
     let def = format!("Definition {} {}{} :=\n{}.", spec.name, binders.join(" "), annot, term);
     let sig = Sig {
@@ -643,6 +667,7 @@ fn pat_ident(p: &Pat) -> Option<String> {
 pub fn coq_ty(t: &Ty) -> Option<String> {
     Some(match t {
         Ty::Int(_) | Ty::NonZero | Ty::Addr | Ty::ISize | Ty::Ptr | Ty::Slice | Ty::TPtr(_) | Ty::IdxRef => "N".into(),
+        Ty::Abs(n) => n.to_string(),
         Ty::Either(a, b) => format!("({} + {})%type", coq_ty(a)?, coq_ty(b)?),
         Ty::Bool => "bool".into(),
         Ty::Unit => "unit".into(),
@@ -862,6 +887,7 @@ impl<'a> Ctx<'a> {
             Some(x) => x,
         };
         match s {
+            Stmt::Local(l) if l.attrs.iter().any(|a| a.path().is_ident("cfg") && a.to_token_stream().to_string().contains("windows")) => self.stmts(rest, k),
             Stmt::Local(l) => {
                 let init = match &l.init {
                     Some(i) if i.diverge.is_none() => &i.expr,
@@ -1147,6 +1173,8 @@ impl<'a> Ctx<'a> {
                         "u32" => Ty::TPtr(4),
                         "u16" => Ty::TPtr(2),
                         "u8" => Ty::TPtr(1),
+                        // ONE access of the whole value (width 0 = size_of::<T>(), symbolic)
+                        x if x.starts_with("Packed <") => Ty::TPtr(0),
                         _ => Ty::Ptr,
                     };
                 }
@@ -1204,6 +1232,8 @@ impl<'a> Ctx<'a> {
             }),
             Expr::Field(f) => self.expr(&f.base, &|c, b| match (&f.member, &b.ty) {
                 (Member::Unnamed(i), Ty::Addr) if i.index == 0 => k(c, Tm { ty: Ty::Int(64), ..b }),
+                // `.0` of the (Packed) value an opaque effect call returns
+                (Member::Unnamed(i), Ty::Unit) if i.index == 0 => k(c, b),
                 (Member::Unnamed(i), Ty::Tup(v)) if v.len() == 2 && i.index < 2 => {
                     let f_ = if i.index == 0 { "fst" } else { "snd" };
                     k(c, Tm::app(format!("{} {}", f_, b.s), v[i.index as usize].clone()))
@@ -1513,6 +1543,9 @@ impl<'a> Ctx<'a> {
                 let rty = if matches!(l.ty, Ty::Addr) { Ty::Addr } else if matches!(l.ty, Ty::NonZero) { Ty::Int(64) } else { l.ty.clone() };
                 let w64 = is_w64(&l.ty) || (matches!(l.ty, Ty::NonZero));
                 match &b.op {
+                    BinOp::Add(_) if matches!((&l.ty, &r.ty), (Ty::Int(32), Ty::Int(32))) => {
+                        c.bind_op(format!("padd32 m {} {} {}", line, l.s, r.s), Ty::Int(32), k)
+                    }
                     BinOp::Add(_) | BinOp::Sub(_) | BinOp::Mul(_) => {
                         if !(both_int && w64) {
                             return unsup("arithmetic on non-64-bit or non-integer operands", b.span());
@@ -1906,11 +1939,32 @@ impl<'a> Ctx<'a> {
             if sel.len() != keep.len() {
                 return unsup(&format!("constructor `{}` called with too few arguments", last), call.span());
             }
-            return self.exprs(&sel, &|c, tms| match tms.len() {
+            return self.exprs(&sel, &|c, tms| {
+                // a literal `None` among the kept arguments is the absent mapping handle
+                let tms: Vec<Tm> = tms.into_iter().map(|t| if t.s == "None" { Tm::atom("(@None unit)", Ty::Opt(Box::new(Ty::Unit))) } else { t }).collect();
+                match tms.len() {
                 1 => k(c, tms[0].clone()),
                 _ => {
                     let s = tms.iter().map(|t| t.s.clone()).collect::<Vec<_>>().join(", ");
                     k(c, Tm { s: format!("({})", s), ty: Ty::Tup(tms.iter().map(|t| t.ty.clone()).collect()), atomic: false })
+                }
+                }
+            });
+        }
+        // usize::try_from(<c_long / isize>): fails for negative values; NonZeroUsize::try_from(usize): fails for 0
+        if last == "try_from" && path.segments.len() == 2 && args.len() == 1 && (path.segments[0].ident == "usize" || path.segments[0].ident == "NonZeroUsize") {
+            let nz = path.segments[0].ident == "NonZeroUsize";
+            return self.expr(args[0], &|c, t| {
+                if nz {
+                    if !is_w64(&t.ty) {
+                        return unsup("NonZeroUsize::try_from of a non-usize", call.span());
+                    }
+                    k(c, Tm::app(format!("if {} =? 0 then None else Some {}", t.s, t.s), Ty::Opt(Box::new(Ty::NonZero))))
+                } else {
+                    if t.ty != Ty::ISize {
+                        return unsup("usize::try_from of a value that is not a signed 64-bit integer", call.span());
+                    }
+                    k(c, Tm::app(format!("isize_try_from {}", t.s), Ty::Opt(Box::new(Ty::Int(64)))))
                 }
             });
         }
@@ -1982,7 +2036,7 @@ impl<'a> Ctx<'a> {
                         parts.push(format!("{}", w));
                     }
                     Ty::Bool => parts.push(format!("(N.b2n {})", t.s)),
-                    Ty::Unit => {}
+                    Ty::Unit | Ty::Abs(_) => {}
                     _ => return unsup("non-integer argument of an effect call", sp),
                 }
             }
@@ -2278,7 +2332,7 @@ impl<'a> Ctx<'a> {
                     }
                     k(c, Tm::app(format!("ptr_add {} {}", recv.s, a.s), Ty::Ptr))
                 }),
-                (t, m) if is_int(t) && c.spec.id_methods.iter().any(|x| *x == m) && args.is_empty() => k(c, recv.clone()),
+                (t, m) if (is_int(t) || matches!(t, Ty::Abs(_))) && c.spec.id_methods.iter().any(|x| *x == m) && args.is_empty() => k(c, recv.clone()),
                 (Ty::ISize, "checked_mul") if args.len() == 1 => c.expr(args[0], &|c, a| {
                     if a.ty != Ty::ISize {
                         return unsup("isize::checked_mul with a non-isize operand", mc.span());
@@ -2287,6 +2341,14 @@ impl<'a> Ctx<'a> {
                 }),
                 // the failure of an opaque effect call is not modelled
                 (Ty::Unit, "unwrap") if args.is_empty() => k(c, recv.clone()),
+                // `.map_err(<conversion function>)`: the error is converted, nothing else happens (a CLOSURE is not accepted)
+                (Ty::Res(_), "map_err") if args.len() == 1 && matches!(args[0], Expr::Path(_)) => k(c, recv.clone()),
+                (Ty::Ptr, "offset") if args.len() == 1 => c.expr(args[0], &|c, a| {
+                    if a.ty != Ty::ISize {
+                        return unsup("pointer offset by a non-isize", mc.span());
+                    }
+                    k(c, Tm::app(format!("ptr_add {} {}", recv.s, a.s), Ty::Ptr))
+                }),
                 (Ty::Opt(_), "is_none") => k(c, Tm::app(format!("match {} with Some _ => false | None => true end", recv.s), Ty::Bool)),
                 (Ty::Opt(_), "is_some") => k(c, Tm::app(format!("match {} with Some _ => true | None => false end", recv.s), Ty::Bool)),
                 (Ty::Opt(inner), "unwrap") => {
